@@ -10,6 +10,7 @@ import (
 	"sort"
 	"strings"
 
+	"verifharness/mon"
 	"verifharness/ref"
 )
 
@@ -146,16 +147,21 @@ func CaseSeed(prop string, seed uint64, i int) uint64 {
 func (e *Engine) RunCase(res *Result, tier string, seed uint64, i int, verbose bool) {
 	c := &Ctx{R: ref.NewR(CaseSeed(e.ID, seed, i)), Prop: e.ID, Tier: tier, Seed: seed, Case: i, res: res, Verbose: verbose}
 	res.Cases++
+	mon.SetCaseSalt(CaseSeed(e.ID, seed, i))
 	defer func() {
 		if p := recover(); p != nil {
 			c.Violate(fmt.Sprintf("panic escaped the case: %v", p), string(debug.Stack()))
 		}
 	}()
 	e.Run(c)
+	for n := mon.SiblingRouters.Swap(0); n > 0; n-- {
+		c.Class("router_built_between_hostile_siblings")
+	}
 }
 
 func (e *Engine) RunDirected(res *Result, tier string, seed uint64, d Directed, verbose bool) {
 	c := &Ctx{R: ref.NewR(CaseSeed(e.ID, 0, 0)), Prop: e.ID, Tier: tier, Seed: seed, Case: -1, Directed: d.ID, res: res, Verbose: verbose}
+	mon.SetCaseSalt(CaseSeed(e.ID, seed, len(d.ID))) // directed cases run in both kinds of container, depending on the seed
 	defer func() {
 		if p := recover(); p != nil {
 			c.Violate(fmt.Sprintf("panic escaped the directed case: %v", p), string(debug.Stack()))
